@@ -79,14 +79,23 @@ structure BModel (α : Type) where
   constraints : List (Constraint α)
   objective : Option (OptType × Exp α)
 
+/-- `BuilderConstraint::to_constraint`: a logic assertion goes through `Constraint::new_logic_assertion`, which
+stores `lhs = 1` whatever the (public) `constraint_type` / `rhs` fields of the builder constraint hold. -/
+def toConstraint (names : List String) (c : Constraint α) : Option (Constraint α) :=
+  if c.isAssert then
+    (toExp names c.lhs).map fun l => { name := c.name, lhs := l, cmp := .eq, rhs := .num one, isAssert := true }
+  else do
+    let l ← toExp names c.lhs
+    let r ← toExp names c.rhs
+    pure { name := c.name, lhs := l, cmp := c.cmp, rhs := r, isAssert := false }
+
 /-- `ModelBuilder::into_model`: every declared variable gets a usage mark; default objective `satisfy 0`. -/
 def intoModel (b : BModel α) : Option (Model α) := do
   let names := b.vars.map (·.1)
   let cs ← b.constraints.foldr (fun c acc => do
       let rest ← acc
-      let l ← toExp names c.lhs
-      let r ← if c.isAssert then pure c.rhs else toExp names c.rhs
-      pure ({ c with lhs := l, rhs := r } :: rest)) (some [])
+      let c' ← toConstraint names c
+      pure (c' :: rest)) (some [])
   let (ot, oe) := b.objective.getD (OptType.satisfy, Exp.num zero)
   let o ← toExp names oe
   pure { optType := ot, objective := o, constraints := cs,
